@@ -85,6 +85,9 @@ func (h265dp *h265Depacketizer) depacketizeStap(packet *Packet) (err error) {
 
 	// 循环读取被封装的NAL
 	for {
+		if off+2 > len(payload) {
+			return errTruncatedPayload
+		}
 		// nal长度
 		nalSize := ((uint16(payload[off])) << 8) | uint16(payload[off+1])
 		if nalSize < 1 {
@@ -92,6 +95,9 @@ func (h265dp *h265Depacketizer) depacketizeStap(packet *Packet) (err error) {
 		}
 
 		off += 2
+		if off+int(nalSize) > len(payload) {
+			return errTruncatedPayload
+		}
 		frame := &codec.Frame{
 			MediaType: codec.MediaTypeVideo,
 			Payload:   make([]byte, nalSize),
@@ -110,6 +116,9 @@ func (h265dp *h265Depacketizer) depacketizeStap(packet *Packet) (err error) {
 
 func (h265dp *h265Depacketizer) depacketizeFu(packet *Packet) (err error) {
 	payload := packet.Payload()
+	if len(payload) < 3 {
+		return
+	}
 	rawDataOffset := 3 // 原始数据的偏移 = FU indicator + header
 
 	//  0 1 2 3 4 5 6 7
